@@ -322,6 +322,94 @@ def run_history(method, kname, dim, two, ops, periodic=False):
     return probs, nev
 
 
+def run_evaluator_history(method, kname, dim, ops):
+    """The same defining sums through the general purpose SPHEvaluator
+    (pysph.tools.sph_evaluator) with the interpolation equations of the
+    method: evaluate(); update_particle_arrays(new source and target
+    arrays); move + update()."""
+    from compyle.config import get_config
+    get_config().use_openmp = False
+    import pysph.base.kernels as K
+    from pysph.base.utils import get_particle_array
+    from pysph.tools.sph_evaluator import SPHEvaluator
+    import pysph.tools.interpolator as I
+    from vlib.build import reset_group_counter
+    reset_group_counter()
+    kernel = getattr(K, kname)(dim=dim)
+    eqcls = dict(shepard=I.InterpolateFunction, sph=I.InterpolateSPH)[method]
+
+    def arrays(variant):
+        srcs = make_sources(dim, variant, True)
+        for pa in srcs:
+            pa.add_property('temp_prop')
+            pa.temp_prop[:] = pa.f
+        tg = make_targets(dim, variant)
+        th = max(float(pa.h.max()) for pa in srcs)
+        tpa = get_particle_array(name='interpolate', x=tg[0], y=tg[1],
+                                 z=tg[2], h=th * np.ones_like(tg[0]),
+                                 number_density=np.zeros_like(tg[0]))
+        tpa.add_property('prop')
+        return srcs, tpa, tg, th
+    srcs, tpa, tg, th = arrays(0)
+    ev = SPHEvaluator(srcs + [tpa], [eqcls(dest='interpolate',
+                                           sources=[p.name for p in srcs])],
+                      dim=dim, kernel=kernel)
+    probs = []
+    nev = 0
+    v = 0
+    for step, op in enumerate(['init'] + list(ops)):
+        if op == 'arrays':
+            v += 1
+            srcs, tpa, tg, th = arrays(v)
+            ev.update_particle_arrays(srcs + [tpa])
+        elif op == 'move':
+            for pa in srcs:
+                pa.x[:] = pa.x + 0.125
+                if dim > 1:
+                    pa.y[:] = pa.y - 0.0625
+            ev.update()
+        ev.evaluate()
+        nev += 1
+        want, info = reference(method, kernel, dim, srcs, tg, th,
+                               lambda pa: pa.get('f', only_real_particles=False
+                                                 ).copy())
+        got = tpa.get('prop', only_real_particles=False)
+        for i in range(len(want)):
+            if info[i][1]:
+                continue
+            if abs(got[i] - want[i]) > 1e-12 * max(1.0, abs(want[i])):
+                probs.append(('evaluator:%s' % method, dict(
+                    step=step, op=op, target=i, got=float(got[i]),
+                    want=float(want[i]))))
+                return probs, nev
+    return probs, nev
+
+
+def _ev_job(args):
+    method, kname, dim, depth = args
+    out = {}
+    nev = nh = 0
+    for d in range(0, depth + 1):
+        for ops in itertools.product(('arrays', 'move'), repeat=d):
+            try:
+                pr, n = run_evaluator_history(method, kname, dim, ops)
+            except Exception as e:  # noqa
+                import traceback
+                pr, n = [('evaluator:exception:%s' % type(e).__name__, dict(
+                    tb=traceback.format_exc()[-400:]))], 0
+            nev += n
+            nh += 1
+            for kind, det in pr[:1]:
+                key = 'interp:%s' % kind
+                if key not in out:
+                    out[key] = ('%s %r [SPHEvaluator, method=%s kernel=%s '
+                                'dim=%d ops=%r]' % (kind, det, method, kname,
+                                                    dim, ops),
+                                dict(evaluator=True, method=method,
+                                     kernel=kname, dim=dim, ops=list(ops)))
+    return nev, nh, out
+
+
 def _job(args):
     method, kname, dim, two, depth = args[:5]
     periodic = args[5] if len(args) > 5 else False
@@ -362,9 +450,26 @@ def run(ctx):
         jobs.append((method, 'CubicSpline', 2, False, depth))
         jobs.append((method, 'CubicSpline', 2, True, depth, True))
         jobs.append((method, 'Gaussian', 1, True, depth, True))
-    res = map_jobs(_job, jobs, ctx.ncpu, job_timeout=3000)
+    ejobs = [(m, k, d, 3 if not ctx.thorough else 5)
+             for m in ('shepard', 'sph')
+             for k, d in (('CubicSpline', 1), ('CubicSpline', 2),
+                          ('Gaussian', 2), ('WendlandQuintic', 3))]
+    both = map_jobs(lambda j: _job(j[1]) if j[0] == 'i' else _ev_job(j[1]),
+                    [('i', j) for j in jobs] + [('e', j) for j in ejobs],
+                    ctx.ncpu, job_timeout=3000)
+    res = both[:len(jobs)]
     viol = {}
     nev = nh = 0
+    for job, r in zip(ejobs, both[len(jobs):]):
+        if isinstance(r, Crash):
+            viol.setdefault('interp:evaluator:crash', (
+                r.reason, dict(evaluator=True, job=list(job))))
+            continue
+        a, b, out = r
+        nev += a
+        nh += b
+        for k, x in out.items():
+            viol.setdefault(k, x)
     for job, r in zip(jobs, res):
         if isinstance(r, Crash):
             viol.setdefault('interp:crash', (r.reason, dict(job=list(job))))
@@ -386,7 +491,11 @@ def run(ctx):
                     'update()}; after every call the property f, a constant '
                     'field and (order1) a linear field are interpolated and '
                     'compared with a NumPy evaluation of the defining sums '
-                    'on the current data' % depth)
+                    'on the current data; in addition the shepard and sph '
+                    'equations through SPHEvaluator (4 kernel/dim pairs): '
+                    'every history of <=3 (thorough 5) of '
+                    '{update_particle_arrays(new sources and targets), move '
+                    '+ update()}, evaluate() after each' % depth)
     assumptions = ['targets with a source exactly at the cut-off are skipped',
                    'order1 is judged only where the moment matrix has '
                    'condition number < 1e6',
@@ -397,6 +506,10 @@ def run(ctx):
 
 
 def replay(ctx, obj):
+    if obj.get('evaluator'):
+        pr, n = run_evaluator_history(obj['method'], obj['kernel'],
+                                      obj['dim'], tuple(obj['ops']))
+        return dict(violates=bool(pr), problems=pr[:3])
     pr, n = run_history(obj['method'], obj['kernel'], obj['dim'], obj['two'],
                         tuple(obj['ops']), obj.get('periodic', False))
     return dict(violates=bool(pr), problems=pr[:3])
